@@ -18,20 +18,19 @@
     * C10_linker_idempotent_query     queries leave no trace (true after fix 795bab9)
     * C10_pcm_region_sound_partial    one PCM header re-homed by add_song: the bank entry is the
                                       header of a window whose bytes are the sample's — PARTIAL:
-                                      extra hypotheses `start = 0` (known finding D11), fewer
-                                      than 65535 sample headers (uint16_t index) and the allocator
-                                      invariant of C14 for the current wave bank
+                                      extra hypotheses `start = 0` (known finding D11) and the allocator
+                                      invariant of C14 for the current wave bank (the bound on the number
+                                      of sample headers went with fix 8d3c42d)
     * C10_offset_window_counterexample  the D11 witness
     * C10_pcm_histories_partial       invariant over ALL histories of add_song/queries on a fresh linker:
                                       every song of the bank was read from one of the added files, and every
                                       patch entry serves — in the banks as they are now — what the file carried
                                       for that slot; PCM headers address exactly the sample's bytes inside the
                                       PCM bank get_pcm_data returns, with the rate's pitch code, under the bank
-                                      rule; data bank duplicate-free; C14's allocator invariant — PARTIAL: extra
-                                      hypotheses `start = 0` in every PCM header read (D11) and at most 65536
-                                      sample headers at the end (the uint16_t that carries add_sample's result)
+                                      rule; data bank duplicate-free; C14's allocator invariant — PARTIAL: the one
+                                      extra hypothesis is `start = 0` in every PCM header read (D11)
     * C10_pcm_later_songs_keep_partial  split histories: nothing a later song adds changes what an earlier
-                                      patch entry resolves to (same two extra hypotheses)
+                                      patch entry resolves to (same extra hypothesis)
     * C10_reader_agreement            the linker's chunk walk (readSong = state-free part of add_song) and the
                                       spec reader agree on every byte string the spec reader accepts: same
                                       sequence, group and entries; add_song is the fold over exactly these
@@ -370,9 +369,9 @@ theorem C10_linker_idempotent_query (ops : List Op) (l : Linker) :
         | error e => rfl
         | ok l' => exact ih l'
 
-/-- One PCM header re-homed by add_song (PARTIAL: start offset 0 — known finding D11 —, fewer than
-65535 sample headers so that the `uint16_t` index is exact, and a wave bank satisfying C14's
-allocator invariant, which every bank reached from `Bank.new` by such additions does).  After a successful `addPcmh`: the wave bank holds a sample `h2` whose window
+/-- One PCM header re-homed by add_song (PARTIAL: start offset 0 — known finding D11 — and a wave bank
+satisfying C14's allocator invariant, which every bank reached from `Bank.new` by such additions does;
+the former bound on the number of sample headers is gone with fix 8d3c42d).  After a successful `addPcmh`: the wave bank holds a sample `h2` whose window
 `[position, position + size)` shows exactly the bytes `pcmd[position₀, position₀ + size)` the
 song's header addressed; the patch entry's data-bank entry is `pcmHeader h2`, i.e. that address
 (with the pitch code of the song's rate) and that size; the invariant is kept and no byte of any
@@ -380,7 +379,6 @@ window handed out earlier changes. -/
 theorem C10_pcm_region_sound_partial (sdata seqLen : Nat) (pcmd data : Bytes) (a a' : Acc) (rs : List Alloc.Win)
     (header : Wave.Sample) (hh : Wave.Sample.fromBytes (data.drop 4) = some header)
     (hstart : header.start = 0) (hsmall : header.size < 1073741824) (hnd : a.bank.Nodup)
-    (hcount : a.wave.samples.length < 65535)
     (inv : Wave.Inv a.wave rs) (h : addPcmh sdata seqLen pcmd data a = .ok a') :
     ∃ (h2 : Wave.Sample) (idx addr : Nat) (rs' : List Alloc.Win),
       a'.patch = a.patch ++ [(addr, idx % 65536)] ∧ a'.bank[idx]? = some (pcmHeader h2) ∧ a'.bank.Nodup ∧
@@ -414,13 +412,8 @@ theorem C10_pcm_region_sound_partial (sdata seqLen : Nat) (pcmd data : Bytes) (a
               ⟨by simp only [hstart, hlen]; omega, by rw [hlen]; exact hsmall, fun _ => hstart⟩
             have so := Wave.addSample_step a.wave rs _ _ w sidx inv adm hadd
             obtain ⟨s0, hs0, hread, hst, hsz, hrt⟩ := so.entry
-            -- the index is below 65536 or not: in both cases `h2` is a sample of the new bank
             have hmem : h2 ∈ w.samples := List.mem_of_getElem? hget
             have ustd := C10_unique_data_spec a.bank (pcmHeader h2) hnd
-            have hsame : sidx % 65536 = sidx := by
-              apply Nat.mod_eq_of_lt
-              rcases so.grows with ⟨g, _⟩ | ⟨g, _⟩ <;> omega
-            rw [hsame] at hget
             have es : s0 = h2 := by rw [hs0] at hget; exact Option.some.inj hget
             subst es
             refine ⟨s0, (addUnique a.bank (pcmHeader s0)).1, _, _, rfl, ustd.1, ustd.2.2.1, hmem, ?_, hsz, hrt, ?_, so.inv, ?_⟩
@@ -456,12 +449,13 @@ theorem C10_offset_window_counterexample :
 /-! ### whole histories -/
 
 /-- The 8-byte data-bank entry `e` is a PCM header that serves `bytes` at `rate`: its first word is
-a 24-bit address `p` with the pitch code of `rate` in the top byte, its second word the number of
+a 24-bit address `p` with the pitch code of `rate` (the spec's `pitchOf`: units of 17500/8 Hz, rounded,
+within 1..8) in the top byte, its second word the number of
 bytes; the PCM bank `pcm` (what `get_pcm_data` returns) contains `[p, p + size)`, shows exactly
 `bytes` there, and the window does not cross a boundary of the `bankSize`-byte banks unless the
 sample is larger than a bank. -/
 def PcmHeaderServes (e pcm : Bytes) (bankSize rate : Nat) (bytes : Bytes) : Prop :=
-  ∃ p, e.length = 8 ∧ LinkSpec.nat32be e 0 = some (p + pitchCode rate * 16777216) ∧ p < 16777216 ∧
+  ∃ p, e.length = 8 ∧ LinkSpec.nat32be e 0 = some (p + LinkSpec.pitchOf rate * 16777216) ∧ p < 16777216 ∧
     LinkSpec.nat32be e 4 = some bytes.length ∧
     p + bytes.length ≤ pcm.length ∧ LinkSpec.readAt pcm p bytes.length = bytes ∧ Alloc.bankRule bankSize ⟨p, bytes.length⟩
 
@@ -488,16 +482,16 @@ theorem serves_of_resolves (l : Linker) (rs : List Alloc.Win) (inv : Wave.Inv l.
       rw [← e7]; simp only [Alloc.Win.reads, List.length_take, List.length_drop]; omega
     obtain ⟨f1, f2, f3⟩ := pcmHeader_fields h2 (by rw [e4]; omega) (by omega)
     refine ⟨h1, by rw [hlen, e5], idx, _, e1, e2, h2.position, f3, ?_, by omega, ?_, ?_, ?_, ?_⟩
-    · rw [f1, e4, e6, Nat.add_zero]
+    · rw [f1, e4, e6, Nat.add_zero, pitchCode_eq_pitchOf]
     · rw [f2, hlen]
     · rw [hlen]; exact w2
     · rw [hlen, w3, e7]
     · rw [hlen]; exact w4
 
-/-- PCM regions and data entries over whole histories (PARTIAL — extra hypotheses: `hD11`, every PCM
-header in the added files has start offset 0, the exclusion the known finding D11 forces; `hcount`,
-at most 65536 sample headers in the wave bank at the end, so that the `uint16_t` that carries the
-result of `add_sample` in `add_song` is exact).
+/-- PCM regions and data entries over whole histories (PARTIAL — the extra hypothesis is `hD11`: every
+PCM header in the added files has start offset 0, the exclusion the known finding D11 forces.  Before
+fix 8d3c42d a second one was needed: at most 65536 sample headers, because `add_song` narrowed the
+result of `add_sample` to a `uint16_t`).
 
 For EVERY list of operations (add-song of any byte strings under any names, queries) that a fresh
 linker — `MDSDRV_Linker()` is `fresh 4161536 32768`; any rom of fewer than 2^24 bytes and any bank size
@@ -512,13 +506,12 @@ obeys the bank rule.  The data bank has no duplicates and the wave bank satisfie
 invariant (regions and gaps tile the used area: no two allocated regions overlap). -/
 theorem C10_pcm_histories_partial (m bk : Nat) (hm : 0 < m) (hm24 : m < 16777216) (hb : bk < 1073741824)
     (ops : List Op) (l : Linker) (hrun : runOps ops (Linker.fresh m bk) = .ok l)
-    (hD11 : ∀ name file, Op.add name file ∈ ops → FileStart0 file)
-    (hcount : l.wave.samples.length ≤ 65536) :
+    (hD11 : ∀ name file, Op.add name file ∈ ops → FileStart0 file) :
     (∀ sd ∈ l.songs, ∃ name file rd, Op.add name file ∈ ops ∧ readSong file = some rd ∧
         sd.filename = name ∧ sd.data = rd.seq ∧ All2 (Serves l) sd.patch rd.carried) ∧
     l.dataBank.Nodup ∧ l.songs.length = (ops.flatMap Op.src).length ∧
     ∃ rs, Wave.Inv l.wave rs := by
-  obtain ⟨rs, I, x, _⟩ := runOps_inv ops _ l [] [] (linv_fresh m bk hm (by omega) hb) hD11 hrun hcount
+  obtain ⟨rs, I, x, _⟩ := runOps_inv ops _ l [] [] (linv_fresh m bk hm (by omega) hb) hD11 hrun
   have hmax : l.wave.maxSize < 16777216 := by
     rw [x.same.1]; exact hm24
   refine ⟨?_, I.nodup, ?_, rs, I.wave⟩
@@ -536,7 +529,7 @@ theorem C10_pcm_histories_partial (m bk : Nat) (hm : 0 < m) (hm24 : m < 16777216
     · exact h5.imp (serves_of_resolves l rs I.wave hmax)
   · rw [runOps_songs_length ops _ l hrun]; simp [Linker.fresh, Linker.songs]
 
-/-- Samples and data of later songs never disturb earlier ones (PARTIAL: same two extra hypotheses).
+/-- Samples and data of later songs never disturb earlier ones (PARTIAL: same extra hypothesis).
 Split any history in two: after the first part the linker is `l1`, after the whole `l`.  Then every
 song of `l1` is still a song of `l` with the same patch table; every data-bank index of `l1` holds
 the same entry in `l`; every sample header of `l1` is a header of `l`; and no byte of the window
@@ -545,18 +538,16 @@ whatever a patch entry resolved to in `l1` it resolves to in `l`. -/
 theorem C10_pcm_later_songs_keep_partial (m bk : Nat) (hm : 0 < m) (hm2 : m < 1073741824) (hb : bk < 1073741824)
     (ops1 ops2 : List Op) (l1 l : Linker)
     (h1 : runOps ops1 (Linker.fresh m bk) = .ok l1) (h2 : runOps ops2 l1 = .ok l)
-    (hD11 : ∀ name file, Op.add name file ∈ ops1 ++ ops2 → FileStart0 file)
-    (hcount : l.wave.samples.length ≤ 65536) :
+    (hD11 : ∀ name file, Op.add name file ∈ ops1 ++ ops2 → FileStart0 file) :
     runOps (ops1 ++ ops2) (Linker.fresh m bk) = .ok l ∧
     (∀ sd ∈ l1.songs, sd ∈ l.songs) ∧
     (∀ (i : Nat) (e : Bytes), l1.dataBank[i]? = some e → l.dataBank[i]? = some e) ∧
     (∀ s ∈ l1.wave.samples, s ∈ l.wave.samples ∧
         Alloc.Win.reads l.wave.rom ⟨s.position, s.start + s.size⟩ = Alloc.Win.reads l1.wave.rom ⟨s.position, s.start + s.size⟩) ∧
     (∀ q c, Resolves l1.dataBank l1.wave q c → Resolves l.dataBank l.wave q c) := by
-  have hc1 : l1.wave.samples.length ≤ 65536 := Nat.le_trans (runOps_count _ _ _ h2) hcount
   obtain ⟨rs1, I1, _, _⟩ := runOps_inv ops1 _ l1 [] [] (linv_fresh m bk hm hm2 hb)
-    (fun n f hmem => hD11 n f (List.mem_append_left _ hmem)) h1 hc1
-  obtain ⟨rs, I, x, hs⟩ := runOps_inv ops2 l1 l rs1 _ I1 (fun n f hmem => hD11 n f (List.mem_append_right _ hmem)) h2 hcount
+    (fun n f hmem => hD11 n f (List.mem_append_left _ hmem)) h1
+  obtain ⟨rs, I, x, hs⟩ := runOps_inv ops2 l1 l rs1 _ I1 (fun n f hmem => hD11 n f (List.mem_append_right _ hmem)) h2
   refine ⟨by rw [runOps_append, h1]; exact h2, hs, x.bank, ?_, fun q c h => h.mono I1.wave x⟩
   intro s hs1
   refine ⟨x.samples s hs1, ?_⟩
@@ -632,9 +623,9 @@ example : exLinked.wave.samples.length = 3 ∧ exLinked.songs.length = 2 ∧ exL
 
 /-- the hypotheses of both history theorems are met by this history -/
 example : ∃ l, runOps (exOps1 ++ exOps2) (Linker.fresh 64 16) = .ok l ∧
-    (∀ name file, Op.add name file ∈ exOps1 ++ exOps2 → FileStart0 file) ∧ l.wave.samples.length ≤ 65536 ∧ l.songs.length = 2 :=
+    (∀ name file, Op.add name file ∈ exOps1 ++ exOps2 → FileStart0 file) ∧ l.songs.length = 2 :=
   ⟨exLinked, (C10_pcm_later_songs_keep_partial 64 16 (by omega) (by omega) (by omega) exOps1 exOps2 exLinked1 exLinked
-      exRun1 exRun2 exStart0 (by decide +kernel)).1, exStart0, by decide +kernel, by decide +kernel⟩
+      exRun1 exRun2 exStart0).1, exStart0, by decide +kernel⟩
 
 /-! ### the two readers -/
 
@@ -729,7 +720,7 @@ group-ordered insertion, identifier generation (termination, validity, uniquenes
 independence; (a) the tie between `addSong`'s chunk walk and `parseMds` (C10_reader_agreement);
 (b) the PCM/data invariant over whole histories (C10_pcm_histories_partial: every patch entry
 serves what the file carried, PCM region inside `get_pcm_data`, pitch code, bank rule) — under
-`start = 0` (D11, also a hypothesis here) and ≤ 65536 sample headers.
+`start = 0` (D11, also a hypothesis here).
 NOT proved: the last step, that the executable resolver `LinkSpec.resolveBank` / `resolveHeaders`
 returns `.ok ()` given these facts.  It needs (i) `LinkSpec.ordered songs` (insertion sort of the
 group symbols by `lexLe` over `symbolOf`) = the order of `l.songs` (`seqInsert` by `bytesLt` over
